@@ -49,6 +49,43 @@ def gen_assumptions(rng, d):
     return [[n, rng.random() < 0.5] for n in rng.sample(names, min(1, len(names)))] + [[rng.choice(["nope", "xor_inv_", names[0] + "_"]), True]], k
 
 
+RETYPE = {"and": ["nand", "or", "nor", "xor", "xnor"], "nand": ["and", "or", "nor", "xnor"], "or": ["nor", "and", "xor"], "nor": ["or", "nand", "and"],
+          "xor": ["xnor", "and", "or"], "xnor": ["xor", "nand", "nor"], "buf": ["not"], "not": ["buf"], "0": ["1"], "1": ["0"]}
+
+
+def gen_edit(rng, d):
+    nodes = d["nodes"]
+    k = rng.choice(["set_type", "set_type", "set_type", "set_output", "swap_edge"])
+    if k == "set_type":
+        cand = [n for n in nodes if n[1] in RETYPE]
+        if cand:
+            n = rng.choice(cand)
+            return {"op": "set_type", "node": n[0], "type": rng.choice(RETYPE[n[1]]), "redefine": rng.random() < 0.3}
+    if k == "swap_edge":
+        cand = [n for n in nodes if n[1] in lib.GATES and n[3]]
+        if cand:
+            g = rng.choice(cand)
+            others = [m[0] for m in nodes if m[0] != g[0] and m[0] not in g[3]]
+            if others:
+                return {"op": "swap_edge", "node": g[0], "old": rng.choice(g[3]), "new": rng.choice(others)}
+    n = rng.choice(nodes)
+    return {"op": "set_output", "node": n[0], "value": not n[2]}
+
+
+def gen_history(rng):
+    d, tags = U.gen_circuit(rng, kind=rng.choice(["dag", "dag", "parity", "const", "cyclic"]))
+    while len(d["nodes"]) > 10:
+        d, tags = U.gen_circuit(rng, kind="dag")
+    query = rng.choice(["solve", "solve", "cnf"])
+    case = {"fn": "history", "query": query, "circuit": d, "edits": [gen_edit(rng, d) for _ in range(rng.choice([1, 1, 2]))],
+            "tags": ["history"] + tags}
+    if query == "solve":
+        free = lib.free_of(d)
+        case["assume"] = [[n, rng.random() < 0.5] for n in rng.sample(free, rng.randint(0, len(free)))] if rng.random() < 0.8 else None
+        case["akind"] = "inputs"
+    return case
+
+
 def generate(rng, tier):
     quick = tier == "quick"
     out = []
@@ -73,6 +110,10 @@ def generate(rng, tier):
         out.append({"fn": "cnf", "circuit": d, "tags": tags})
         a, ak = gen_assumptions(rng, d)
         out.append({"fn": "solve", "circuit": d, "assume": a, "akind": ak, "tags": tags})
+    # multi-step histories on ONE Circuit object: query, in-place edit that keeps the node set (retype within the arity class,
+    # set_output, swap one fan-in edge), query again; every answer is judged against the circuit as it is at that moment
+    for i in range(30 if quick else 300):
+        out.append(gen_history(rng))
     for i in range(n // 6):
         d, tags = U.gen_outside(rng)
         out.append({"fn": "cnf", "circuit": d, "tags": tags})
@@ -121,10 +162,56 @@ def observe(cg, d, case, follow):
     return obs
 
 
+def query(cg, c, case):
+    """one cnf()/solve() call on the live circuit object c"""
+    obs = {"nodes": list(c.nodes()), "orders": U.record_orders(c)}
+    try:
+        if case["query"] == "cnf":
+            formula, variables = cg.sat.cnf(c)
+            obs["cnf"] = U.named_clauses(formula.clauses, variables)
+        else:
+            a = case.get("assume")
+            r = cg.sat.solve(c, None if a is None else {k: v for k, v in a})
+            if r is False:
+                obs["ret"] = False
+            elif isinstance(r, dict) and all(isinstance(v, bool) for v in r.values()):
+                obs["ret"] = sorted([k, v] for k, v in r.items())
+            else:
+                obs["ret_other"] = repr(r)[:200]
+    except Exception as e:
+        obs["exc"] = type(e).__name__
+    return obs
+
+
+def apply_edit(c, e):
+    try:
+        if e["op"] == "set_type":
+            if e.get("redefine"):
+                c.add(e["node"], e["type"], fanin=list(c.fanin(e["node"])), output=c.is_output(e["node"]), allow_redefinition=True)
+            else:
+                c.set_type(e["node"], e["type"])
+        elif e["op"] == "set_output":
+            c.set_output(e["node"], e["value"])
+        else:
+            c.disconnect(e["old"], e["node"])
+            c.connect(e["new"], e["node"])
+        return "ok"
+    except Exception as ex:                 # a rejected edit: the circuit is judged as it now is
+        return type(ex).__name__
+
+
 def impl(case):
     import circuitgraph as cg
     if case["fn"] == "skip":
         return {}
+    if case["fn"] == "history":
+        c = lib.build_circuit(case["circuit"])
+        steps = [[lib.dump_circuit(c), query(cg, c, case)]]
+        edits = []
+        for e in case["edits"]:
+            edits.append(apply_edit(c, e))
+            steps.append([lib.dump_circuit(c), query(cg, c, case)])      # same object: dump = its state at this query
+        return {"history": steps, "edits": edits}
     return observe(cg, case["circuit"], case, True)
 
 
@@ -147,6 +234,9 @@ def term(case, d, obs):
 def to_coq(case, obs):
     if case["fn"] == "skip":
         return None
+    if case["fn"] == "history":
+        sub = dict(case, fn=case["query"])
+        return U.cmany([term(sub, d, o) for d, o in obs["history"]])
     return U.cmany([term(case, case["circuit"], obs)] + [term(case, e, o) for e, o in obs.get("followups", [])])
 
 
@@ -158,6 +248,8 @@ def classify(case, obs):
     if case["fn"] == "skip":
         return ["skip"]
     tags = [case["fn"]] + ["kind:" + t for t in case.get("tags", [])]
+    if case["fn"] == "history":
+        return tags + ["history:" + case["query"]] + ["edit:%s:%s" % (e["op"], r) for e, r in zip(case["edits"], obs.get("edits", []))]
     if obs.get("followups"):
         tags.append("followups:%d" % len(obs["followups"]))
     if case["fn"] == "cnf":
@@ -189,6 +281,8 @@ def mutate_case(rng, case):
     if _MUTATE_BUDGET[0] <= 0:
         return {"fn": "skip"}
     _MUTATE_BUDGET[0] -= 1
+    if case["fn"] == "history":
+        return gen_history(rng)
     kind = (case.get("tags") or ["dag"])[0]
     d, tags = U.gen_circuit(rng, kind=kind if kind in ("dag", "parity", "bb", "bb_unconn", "cyclic", "stress", "const", "pfamily") else None)
     if case["fn"] == "cnf":
